@@ -16,6 +16,8 @@
 EXTENDS Repo
 
 CONSTANTS NonCanon, FsckFlags, Damages,
+          Missized,     \* objects whose committed pointer is canonical in form but names a size other than the object's length:
+                        \* nothing below depends on it - an object is sound when its bytes hash to its id
           Excludes      \* the sets of paths lfs.fetchexclude may name (fixed per behaviour)
 
 VARIABLES bad,      \* oids moved aside to lfs/bad
@@ -33,7 +35,7 @@ FCommit(b, p, blob, g) == Keep /\ FClean /\ UNCHANGED fstaged /\ (blob \in Oids 
 FMerge(b, o)           == Keep /\ FClean /\ UNCHANGED fstaged /\ Merge(b, o)
 \* git add of a new version of p (object o) without committing it
 FStage(p, o) ==
-  /\ Keep /\ FClean /\ br[head] # NoCommit /\ TreeOf(br[head])[p] # o /\ local[o] \in {"absent", "valid"} /\ o \notin NonCanon
+  /\ Keep /\ FClean /\ br[head] # NoCommit /\ TreeOf(br[head])[p] # o /\ local[o] \in {"absent", "valid"} /\ o \notin NonCanon \cup Missized
   /\ fstaged' = [fstaged EXCEPT ![p] = o]
   /\ local' = [local EXCEPT ![o] = "valid"]
   /\ UNCHANGED <<commits, br, rr, rt, head, server, everRemote>>
